@@ -696,3 +696,62 @@ def op_c07(case):
     fo = _follower_ok(tree, case.get("follower", ""))
     return {"ok": True, "func": func, "got": got if got is not None else [], "found": got is not None,
             "after": "ok" if fo else ("follower_unparsable_alone" if fo is None else "differs")}
+
+
+# ---------------------------------------------------------------------------------------------
+# C14: composition law
+# ---------------------------------------------------------------------------------------------
+_alone: dict = {}
+
+
+def _body_rows(src: str):
+    """rows of the statements of parse_string(src).body (depth-normalised), or the exception"""
+    try:
+        arm()
+        tree = P().parse_string(src, mode="exec")
+    except HangTimeout:
+        return {"hang": True}
+    except BaseException as e:  # noqa: BLE001
+        return {"exc": exc_record(e)}
+    rows = []
+    for i, st in enumerate(tree.body):
+        for r in flatten(st):
+            r[0] += 1
+            if r[0] == 1:
+                r[2], r[3] = "body", 0
+            rows.append(r)
+    return {"rows": rows, "n": len(tree.body)}
+
+
+def _shift(rows, dl):
+    out = []
+    for r in rows:
+        r = list(r)
+        if r[4] >= 0:
+            r[4] += dl
+        if r[6] >= 0:
+            r[6] += dl
+        out.append(r)
+    return out
+
+
+def op_c14(case):
+    parts = case["parts"]
+    whole = _body_rows("".join(parts))
+    exp, dl, alone_exc = [], 0, None
+    for p in parts:
+        if p not in _alone:
+            _alone[p] = _body_rows(p)
+        a = _alone[p]
+        if "rows" not in a:
+            alone_exc = {"part": p, "outcome": a}
+            break
+        exp += _shift(a["rows"], dl)
+        dl += p.count("\n")
+    r = {"alone_ok": alone_exc is None, "alone": alone_exc, "whole_ok": "rows" in whole, "whole": None if "rows" in whole else whole}
+    if r["alone_ok"] and r["whole_ok"]:
+        r["a"] = row_digests(whole["rows"])
+        r["b"] = row_digests(exp)
+        if r["a"] != r["b"]:
+            r["diff"] = first_diff(whole["rows"], exp)
+    return r
